@@ -22,9 +22,17 @@ package limiter
 //@   ensures other-keys-kept: forallS(k, k != key ==> lsCurr[k] == old(lsCurr[k]) && lsPrev[k] == old(lsPrev[k]) && lsExp[k] == old(lsExp[k]))
 //@   ensures item-is-entry: result.currHits == lsCurr[key] && result.prevHits == lsPrev[key] && result.exp == lsExp[key]
 
-//@ func (*manager).set(m, key, it, exp) assumed
-//@   modifies lsCurr, lsPrev, lsExp, item.currHits, item.prevHits, item.exp
-//@   ensures lsCurr == old(lsCurr)[key := old(it.currHits)] && lsPrev == old(lsPrev)[key := old(it.prevHits)] && lsExp == old(lsExp)[key := old(it.exp)]
+// set: the relation to the ghost view is trusted; the body is checked for what it hands to an external
+// store: a buffer that nobody else holds (the store may keep the slice it is given).
+//@ func (*manager).set
+//@   modifies heap, lsCurr, lsPrev, lsExp, stHas, stVal
+//@   trusted ensures lsCurr == old(lsCurr)[key := old(it.currHits)] && lsPrev == old(lsPrev)[key := old(it.prevHits)] && lsExp == old(lsExp)[key := old(it.exp)]
+//@   atcall @fiber.Storage.Set: buffer-not-shared: arr(val) == 0 || !old(allocated(arr(val)))
+//@   atcall @fiber.Storage.Set: own-key-and-ttl: key == arg1 && exp == arg3
+
+// generated msgpack encoder: appends to b (in place or in a fresh array)
+//@ func (item).MarshalMsg(z, b) assumed pure allocates
+//@   ensures result1 == nil ==> arr(result0) == arr(b) || arr(result0) == 0 || !old(allocated(arr(result0)))
 
 //@ func Config.MaxFunc assumed pure
 //@ func Config.Next assumed pure
@@ -39,13 +47,14 @@ package limiter
 //@ func (FixedWindow).New$1
 //@   requires lock-free-on-entry: !held(mux)
 //@   requires window-positive: expiration > 0 && expiration < 4294967296
-//@   lock mux protects lsCurr, lsPrev, lsExp inv entry-wf: forallS(k, (lsExp[k] == 0 ==> lsCurr[k] == 0) && lsCurr[k] >= 0)
+//@   lock mux protects lsCurr, lsPrev, lsExp inv entry-wf: forallS(k, (lsExp[k] == 0 ==> lsCurr[k] == 0) && lsCurr[k] >= 0 && 0 <= lsExp[k] && lsExp[k] < 8589934592)
 //@   atcall (*manager).get: under-lock-own-key: held(mux) && ownKey(key)
 //@   atcall (*manager).set: under-lock-own-key: held(mux) && ownKey(key)
 //@   atcall (*manager).set: window-step: !called(@fiber.Ctx.Next) ==> ite(lsExp[key] == 0 || ts >= lsExp[key],
 //@ ..    it.currHits == 1 && it.exp == ts + expiration,
 //@ ..    it.currHits == lsCurr[key] + 1 && it.exp == lsExp[key])
 //@   atcall (*manager).set: skip-decrements-own-hit: called(@fiber.Ctx.Next) ==> it.currHits == ite(lsCurr[key] > 0, lsCurr[key] - 1, 0) && it.exp == lsExp[key]
+//@   atcall (*manager).set: entry-lives-one-window: exp == cfg.Expiration
 //@   atcall (*manager).set: skip-only-for-configured-class: called(@fiber.Ctx.Next) ==> cfg.SkipSuccessfulRequests || cfg.SkipFailedRequests
 //@   atcall @fiber.Ctx.Next: admitted-within-budget: !held(mux) && (bypass() || lsCurr[last(Config.KeyGenerator)] <= last(Config.MaxFunc))
 //@   atcall Config.LimitReached: rejected-only-when-exhausted: !held(mux) && lsCurr[last(Config.KeyGenerator)] > last(Config.MaxFunc)
@@ -57,7 +66,7 @@ package limiter
 //@ func (SlidingWindow).New$1
 //@   requires lock-free-on-entry: !held(mux)
 //@   requires window-positive: expiration > 0 && expiration < 4294967296
-//@   lock mux protects lsCurr, lsPrev, lsExp inv entry-wf: forallS(k, (lsExp[k] == 0 ==> lsCurr[k] == 0 && lsPrev[k] == 0) && lsCurr[k] >= 0)
+//@   lock mux protects lsCurr, lsPrev, lsExp inv entry-wf: forallS(k, (lsExp[k] == 0 ==> lsCurr[k] == 0 && lsPrev[k] == 0) && lsCurr[k] >= 0 && 0 <= lsExp[k] && lsExp[k] < 8589934592)
 //@   atcall (*manager).get: under-lock-own-key: held(mux) && ownKey(key)
 //@   atcall (*manager).set: under-lock-own-key: held(mux) && ownKey(key)
 //@   atcall (*manager).set: window-step: !called(@fiber.Ctx.Next) ==> ite(lsExp[key] == 0,
@@ -66,6 +75,7 @@ package limiter
 //@ ..      it.currHits == 1 && it.prevHits == lsCurr[key] && it.exp == ite(ts - lsExp[key] >= expiration, ts + expiration, lsExp[key] + expiration),
 //@ ..      it.currHits == lsCurr[key] + 1 && it.prevHits == lsPrev[key] && it.exp == lsExp[key]))
 //@   atcall (*manager).set: skip-decrements-own-hit: called(@fiber.Ctx.Next) ==> it.currHits == ite(lsCurr[key] > 0, lsCurr[key] - 1, 0) && it.exp == lsExp[key] && it.prevHits == lsPrev[key]
+//@   atcall (*manager).set: entry-outlives-next-window: !called(@fiber.Ctx.Next) ==> exp == ((it.exp - ts) + expiration) * 1000000000
 //@   atcall @fiber.Ctx.Next: admitted-within-rate: !held(mux) && (bypass() || rateOf(lsPrev[last(Config.KeyGenerator)], lsCurr[last(Config.KeyGenerator)], lsExp[last(Config.KeyGenerator)] - ts, expiration) <= last(Config.MaxFunc))
 //@   atcall Config.LimitReached: rejected-only-when-exhausted: !held(mux) && rateOf(lsPrev[last(Config.KeyGenerator)], lsCurr[last(Config.KeyGenerator)], lsExp[last(Config.KeyGenerator)] - ts, expiration) > last(Config.MaxFunc)
 //@   atcall @fiber.Ctx.Set: retry-after-is-time-to-reset: key == "Retry-After" ==> val == fmtUint(lsExp[last(Config.KeyGenerator)] - ts, 10) && lsExp[last(Config.KeyGenerator)] > ts
